@@ -19,6 +19,7 @@ import (
 )
 
 type quietFleet struct {
+	DupSort bool `json:"dupsort,omitempty"` // shadow mode with dupsort_hack and a dupsort DBI (emptied on every instance)
 	ForcedMS int   `json:"forced_interval_ms,omitempty"` // storage_force_snapshot_interval
 	Native  bool   `json:"native"`
 	Padding bool   `json:"padding"`
@@ -71,9 +72,17 @@ func C10() *runner.Property {
 				q := quietFleet{Native: i%2 == 0, Padding: i%4 >= 2, N: 2 + i%4, Writes: 10 + r.Intn(30), Seed: r.U64()}
 				cs = append(cs, runner.MkCase("fleet", fmt.Sprintf("%d-native=%v-pad=%v-n%d", i, q.Native, q.Padding, q.N), c10Params{Fleet: &q}))
 			}
-			for i := 0; i < 4; i++ {
+			for i := 0; i < 6; i++ {
+				q := quietFleet{Native: false, DupSort: true, N: 2 + i%2, Writes: 6 + r.Intn(10), Seed: r.U64()}
+				cs = append(cs, runner.MkCase("fleet-dupsort", fmt.Sprintf("%d-n%d", i, q.N), c10Params{Fleet: &q}))
+			}
+			for i := 0; i < 8; i++ {
 				q := quietFleet{Native: i%2 == 0, N: 2, Writes: 6, Seed: r.U64(), ForcedMS: 40}
-				cs = append(cs, runner.MkCase("fleet-forced-interval", fmt.Sprintf("%d-native=%v", i, q.Native), c10Params{Fleet: &q}))
+				if i >= 4 {
+					// no-news snapshots keep arriving while an emptied dupsort DBI exists everywhere
+					q.Native, q.DupSort = false, true
+				}
+				cs = append(cs, runner.MkCase("fleet-forced-interval", fmt.Sprintf("%d-native=%v-dupsort=%v", i, q.Native, q.DupSort), c10Params{Fleet: &q}))
 			}
 			return cs
 		},
@@ -104,13 +113,43 @@ func runQuietFleet(q quietFleet, env *runner.Env, res *runner.Result) {
 	for i := 0; i < q.N; i++ {
 		conf := lsx.FastConfig(fmt.Sprintf("i%d", i))
 		conf.StorageForceSnapshotInterval = time.Duration(q.ForcedMS) * time.Millisecond
-		x, err := inst.New(env.Dir(fmt.Sprintf("q%d", i)), b, db, fmt.Sprintf("i%d", i), inst.Opt{Native: q.Native, Padding: q.Padding, Conf: &conf})
+		x, err := inst.New(env.Dir(fmt.Sprintf("q%d", i)), b, db, fmt.Sprintf("i%d", i), inst.Opt{Native: q.Native, Padding: q.Padding, Conf: &conf, DupSortHack: q.DupSort})
 		if err != nil {
 			res.Verdict, res.Msg = runner.Inconclusive, err.Error()
 			return
 		}
 		defer x.Close()
 		loopp.AppPut(x, s, fmt.Sprintf("init-%d", i), "v")
+		if q.DupSort {
+			// a dupsort DBI that exists but is empty (all pairs deleted again), and one with pairs on instance 0
+			s.Note(x.Name, "APP BEGIN dupsort")
+			_, _ = lmdbx.Update(x.Env, func(txn *lmdb.Txn) error {
+				d, err := txn.OpenDBI("dups-empty", lmdb.Create|lmdb.DupSort)
+				if err != nil {
+					return err
+				}
+				if err := txn.Put(d, []byte("k"), []byte("v1"), 0); err != nil {
+					return err
+				}
+				if err := txn.Del(d, []byte("k"), []byte("v1")); err != nil { // lmdb-go deletes only the pair (k, "") when the value is nil
+					return err
+				}
+				if i == 0 && q.Writes%2 == 1 {
+					// (only in every other fleet: otherwise the emptied DBI is the only dupsort DBI anywhere)
+					d2, err := txn.OpenDBI("dups", lmdb.Create|lmdb.DupSort)
+					if err != nil {
+						return err
+					}
+					for _, v := range []string{"a", "b", "c"} {
+						if err := txn.Put(d2, []byte("host"), []byte(v), 0); err != nil {
+							return err
+						}
+					}
+				}
+				return nil
+			})
+			s.Note(x.Name, "APP COMMIT dupsort")
+		}
 		insts = append(insts, x)
 	}
 	for _, x := range insts {
